@@ -240,10 +240,12 @@ def uniq_correspondence(ctx):
         for kind, k, ok, flat in ex.map(lambda j: run_shard(*j), jobs):
             if not ok:
                 bad.append((kind, k, flat))
-    for L, r, m in d["gui"]:
-        rep.case(key=("gui", tuple(L)), nontrivial=len(set(L)) < len(L), sample={"L": L, "result": r, "match": m})
-    for a, b, r in d["gmi"]:
-        rep.case(key=("gmi", tuple(a), tuple(b)), nontrivial=len(b) > 0 and len(a) > 1, sample=None)
+    for k, (L, r, m) in enumerate(d["gui"]):
+        rep.case(key=("gui", tuple(L)), nontrivial=len(set(L)) < len(L),
+                 sample={"L": L, "result": r, "match": m} if k == 1500 else None)
+    for k, (a, b, r) in enumerate(d["gmi"]):
+        rep.case(key=("gmi", tuple(a), tuple(b)), nontrivial=len(b) > 0 and len(a) > 1,
+                 sample={"a": a, "b": b, "get_match_indexes": r} if k == 3000 else None)
     rep.traces += len(d["gui"]) + len(d["gmi"])
     for kind, k, flat in bad[:3]:
         rep.fail("broken-correspondence", "Model/Uniq.v and utils.%s differ (shard %d)" % (
@@ -280,7 +282,7 @@ def correspondence(ctx):
             nch = sum(1 for row in rec["final"]["subs"] if any(c.strip() for c in row))
             tc = (rec["check_results"] or {}).get("to_change") or []
             rep.case(key=("trace", rec["runname"], rec["n"]), nontrivial=nch > 0,
-                     sample={"run": rec["runname"], "n": rec["n"], "functions": len(rec["final"]["all"]),
+                     sample=None if not (rec["n"] == 4 and rec["runname"] in ("keep_duplicates", "verif_nominus")) else {"run": rec["runname"], "n": rec["n"], "functions": len(rec["final"]["all"]),
                              "uniques": len(rec["final"]["uniq"]), "rounds": rec["do_sympy"]["nround"],
                              "sympy_simplify_calls": len(rec["calls"]), "functions_with_chain": nch,
                              "extra_trees": len(rec["extra_orig"] or []), "unmerged_by_check_results": len(tc)})
@@ -435,7 +437,7 @@ def search(ctx):
         tot["extra_differ"] += len(r["extra"]["differ"])
         ext_samples += [dict(u, run=r["run"], n=r["n"]) for u in r["extra"]["differ"][:2]]
         rep.case(key=("library", r["run"], r["n"]), nontrivial=s.get("with_chain", 0) > 0,
-                 sample={"run": r["run"], "n": r["n"], "stats": s, "recorded_steps": {k: (v if isinstance(v, int) else len(v))
+                 sample=None if not (r["n"] == 4 and r["run"] in ("base_e_maths", "verif_cube")) else {"run": r["run"], "n": r["n"], "stats": s, "recorded_steps": {k: (v if isinstance(v, int) else len(v))
                                                                                       for k, v in r["steps"].items()}})
         basis = basis_of.get((r["run"], r["n"])) or r["run"]
         for v in r["viol"]:
